@@ -120,7 +120,19 @@ def gen(rng, tier, i):
         cw.append(op("sleep", ms=big + 1000))
         ow.append(op("sleep", ms=big + 1000))
         sc.add_origin(oaddr, conns=[[op("par", r=orr, w=ow)]], oid="origin")
-        sc.add_client("c", li, hs + [op("par", r=cr, w=cw)], start_ms=10)
+        main_start = 10
+        if kind in ("http", "socks5", "socks4", "tproxy") and rng.random() < 0.3:
+            # an earlier, short tunnel and then a while without any tunnel: whatever the first one started (timers,
+            # tickers, shared state) must still work for the one that is measured
+            paddr = "%s:%d" % (sc.origin_ip(), sc.port())
+            sc.add_origin(paddr, default_ops=[op("recv_n", n=1, timeout_ms=5000, on_fail="continue"), send(b"y", on_fail="continue"), op("recv_eof", timeout_ms=5000, on_fail="continue")], oid="preorigin")
+            ph, pp = paddr.split(":")
+            phs, _ = sc.client_handshake(li, ph, int(pp), variant={"socks5": "5", "socks4": "4"}.get(kind))
+            sc.add_client("pre", li, [dict(o, on_fail="continue") for o in phs] + [send(b"x", on_fail="continue"), op("recv_n", n=1, timeout_ms=5000, on_fail="continue"), op("close")], start_ms=10)
+            main_start = rng.choice([1500, 2500, 4000, 9000])
+            if kind == "tproxy":
+                hs, proto = sc.client_handshake(li, host, int(port))     # (the tproxy listener remembers the last destination asked for)
+        sc.add_client("c", li, hs + [op("par", r=cr, w=cw)], start_ms=main_start)
         meta["cid"] = "c" if kind != "quic" else "c/s0"
         meta["proto"] = proto
         sc.max_ms = big + 20000
